@@ -191,6 +191,20 @@ def polyCase (a : List Int) (r0 r1 r2 : List Int) (line : String) : String :=
       let old : List Int := List.replicate ((if arg > 0 then arg.toNat else 0) + 9) 1
       let m := (polyRandomD 32 true p d loopFuel old (givInit seed)).map (·.1)
       verdict specOk (m == some cs) (match m with | some l => showL l | none => "LOOP") line
+    else if t == 0x20 then
+      -- Poly1Dom<GFqDom<int32_t>>: the generic polynomial model over the GFqDom coefficient draws
+      let old : List Int := List.replicate ((if arg > 0 then arg.toNat else 0) + 9) 1
+      let m := (polyRandomG (gfqCoef 32 q) d loopFuel old (givInit seed)).map (·.1)
+      verdict specOk (m == some cs) (match m with | some l => showL l | none => "LOOP") line
+    else if t == 0x11 || t == 0x12 || t == 0x16 then
+      -- Poly1Dom over a RingDraw class: the generic polynomial model; coefficients in the class's element range
+      let canon : Int → Bool := if t == 0x12 then canonicalBal p else canonical p
+      let specG := (if d < 0 then cs.isEmpty else decide (cs.length = d.toNat + 1) && cs.all canon && decide (cs.getLast? ≠ some 0))
+                   && cs1 == cs && cs2 == cs
+      let R : RingDraw := if t == 0x11 then fltRing p else if t == 0x12 then balRing wrapS32 p else mgRing p
+      let old : List Int := List.replicate ((if arg > 0 then arg.toNat else 0) + 9) 1
+      let m := (polyRandomG (ringCoef R) d loopFuel old (givInit seed)).map (·.1)
+      verdict specG (m == some cs) (match m with | some l => showL l | none => "LOOP") line
     else verdict specOk true "speconly" line
   | _, _, _, _ => "BAD poly | " ++ line
 
